@@ -172,6 +172,13 @@ func c15Transfer(c *h.Ctx, id string, r *rand.Rand) {
 			objName = append(objName, enc.NewStringComponent(8, fmt.Sprintf("d%d", d)))
 		}
 	}
+	if r.Intn(5) == 0 {
+		// object names that contain number-convention components themselves (a dataset version, a
+		// timestamp, a sequence number) before the part the application chose last
+		mid := []enc.Component{enc.NewVersionComponent(uint64(1 + r.Intn(9))), enc.NewTimestampComponent(uint64(1 + r.Intn(999))), enc.NewSequenceNumComponent(uint64(r.Intn(9))), enc.NewSegmentComponent(uint64(r.Intn(3)))}[r.Intn(4)]
+		objName = append(objName, mid, enc.NewStringComponent(8, "file"))
+		c.Count("object_names_with_an_inner_number_component", 1)
+	}
 	spare := r.Intn(2) == 0
 	contents := map[uint64][]byte{}
 	var newest uint64
